@@ -16,6 +16,8 @@ import time
 
 VERIF = os.path.dirname(os.path.dirname(os.path.abspath(__file__)))
 REPO = os.environ.get("VERIF_REPO", "/repo")
+# where evidence and replays go: /verif, unless a run against another tree (a seeded change in a scratch worktree) says otherwise
+OUT = os.environ.get("VERIF_OUT", VERIF)
 SPEC = os.path.join(VERIF, "spec")
 HARNESS = os.path.join(VERIF, "harness")
 TLA_CP = "/opt/veriftools/tla/tla2tools.jar:/opt/veriftools/tla/CommunityModules-deps.jar"
@@ -228,6 +230,15 @@ class Check:
         out = os.path.join(self.scratch, "vh-race" if race else "vh")
         sync_gosum()
         cmd = ["go", "build", "-tags", "verif", "-o", out]
+        if REPO != "/repo":
+            # another tree than /repo (VERIF_REPO): same module, the replace directive redirected through an alternative go.mod
+            mod = os.path.join(self.scratch, "alt.mod")
+            with open(os.path.join(HARNESS, "go.mod")) as f:
+                txt = f.read().replace("=> /repo", "=> " + REPO)
+            with open(mod, "w") as f:
+                f.write(txt)
+            shutil.copy(os.path.join(HARNESS, "go.sum"), os.path.join(self.scratch, "alt.sum"))
+            cmd.append("-modfile=" + mod)
         if race:
             cmd.append("-race")
         cmd.append("./cmd/vh")
@@ -279,7 +290,7 @@ class Check:
                     self.known_seen.append(key)
                     print("KNOWN-FINDING: property=%s %s [%s]" % (self.pid, f.get("what", what), key), flush=True)
                 return False
-        d = os.path.join(VERIF, "replays", self.pid)
+        d = os.path.join(OUT, "replays", self.pid)
         os.makedirs(d, exist_ok=True)
         safe = re.sub(r"[^A-Za-z0-9_.-]+", "_", key)[:80]
         path = os.path.join(d, "%s-%d.json" % (safe, len(self.violations)))
@@ -313,8 +324,8 @@ class Check:
             "notes": self.notes,
             "repo_head": git_head(),
         }
-        os.makedirs(os.path.join(VERIF, "evidence"), exist_ok=True)
-        with open(os.path.join(VERIF, "evidence", self.pid + ".json"), "w") as f:
+        os.makedirs(os.path.join(OUT, "evidence"), exist_ok=True)
+        with open(os.path.join(OUT, "evidence", self.pid + ".json"), "w") as f:
             json.dump(ev, f, indent=1, default=str)
 
     def cleanup(self):
@@ -373,6 +384,12 @@ def run_check(pid, tier, seed, fn, level="model_checking"):
         c.notes.append("broken: %s" % str(e)[:2000])
     except KeyboardInterrupt:
         rc, status = 2, "interrupted"
+    except Exception as e:      # a defect of the machinery is never a verdict about the code
+        import traceback
+        traceback.print_exc()
+        print("BROKEN property=%s (not a verdict about the code): orchestrator error %r" % (pid, e), flush=True)
+        rc, status = 2, "broken"
+        c.notes.append("broken: orchestrator error %r" % (e,))
     finally:
         try:
             c.write_evidence(status)
